@@ -392,6 +392,9 @@ r_buf_alloc(uintptr_t fd, size_t size, size_t min_block_size) {
 	//r_buf->iov_index = ~0; /* r_buf_wbuf_get() increment this, set to: -1. */
 	r_buf->buf_max = (r_buf->buf + r_buf->size);
 	r_buf->min_block_size = min_block_size;
+	/* First block starts at ring start: readers may ask for avail
+	 * size before first r_buf_wbuf_get(). */
+	r_buf->iov[0].iov_base = r_buf->buf;
 
 	return (r_buf);
 
